@@ -1,6 +1,10 @@
 //! C02: executing any program against any context returns a value or an error; the value
 //! operators applied directly to arbitrary values never panic.
+use crate::ctxgen::*;
+use crate::prog::*;
+use crate::rng::Rng;
 use crate::s_c09::value_set;
+use std::sync::Arc;
 use crate::s_eval::{run_profile, Profile};
 use crate::wire::*;
 use crate::{guarded, Emit};
@@ -35,6 +39,26 @@ pub fn run(em: &mut Emit, thorough: bool, seed: u64) {
                     &format!("{} {} {}", sx_value(a), op, sx_value(b)),
                 );
             }
+        }
+    }
+    // text-consuming built-ins, string indexing and comparison over strings that mix digits,
+    // unit letters, signs and multi-byte characters at every position (held by the context, so
+    // that no literal spelling is involved)
+    let mut rng = Rng::new(seed ^ 0xC02);
+    let chunks = ["1", "2", "0", ".", "-", "+", "h", "m", "s", "ms", "us", "\u{b5}s", "\u{3bc}s", "ns", "\u{b5}", "é", "€", "😀", "a", " ",
+                  "e", "T", "Z", ":", "\u{0}", "\u{7f}", "\u{80}", "9223372036854775807", "inf", "nan", "0x", "u"];
+    for _ in 0..(if thorough { 40_000 } else { 2_500 }) {
+        let mk = |rng: &mut Rng| -> String { (0..(1 + rng.below(6))).map(|_| *rng.pick(&chunks)).collect() };
+        let (sv, tv) = (mk(&mut rng), mk(&mut rng));
+        let spec = CtxSpec {
+            vars: vec![("s".into(), Value::String(Arc::new(sv.clone()))), ("t".into(), Value::String(Arc::new(tv))),
+                       ("i".into(), Value::Int(rng.below(sv.len() as u64 + 2) as i64))],
+            funs: vec![],
+        };
+        for p in ["duration(s)", "timestamp(s)", "int(s)", "uint(s)", "double(s)", "bytes(s)", "string(bytes(s))", "size(s)", "s[i]", "s[0]",
+                  "s.contains(t)", "s.startsWith(t)", "s.endsWith(t)", "s + t", "s < t", "s == t", "[s, t].map(x, x[i])", "s in [t, s]",
+                  "{s: 1}[t]", "duration(s + t)", "timestamp(t + s)"] {
+            emit_program(em, p, &spec, "nt=1;kind=c02-text");
         }
     }
     run_profile(
